@@ -159,11 +159,11 @@ func (h *Handler) Handle(cx *layer4.Connection, next layer4.Handler) error {
 	if err != nil {
 		return fmt.Errorf("parsing the PROXY header: %v", err)
 	}
-	var wrapped net.Conn = conn
+	var wrapped net.Conn = halfCloseConn{Conn: conn, under: cx}
 	if v1, ok := hdr.(*proxyprotocol.HeaderV1); ok && v1.SrcIP == nil && v1.DestIP == nil {
 		// "PROXY UNKNOWN" declares no addresses: the real endpoints stay in effect
 		// (the header would otherwise report the zero address ":0")
-		wrapped = realAddrConn{Conn: conn, remote: cx.RemoteAddr(), local: cx.LocalAddr()}
+		wrapped = realAddrConn{halfCloseConn: halfCloseConn{Conn: conn, under: cx}, remote: cx.RemoteAddr(), local: cx.LocalAddr()}
 	}
 	h.logger.Debug("received the PROXY header",
 		zap.String("remote", wrapped.RemoteAddr().String()),
@@ -182,10 +182,20 @@ func (h *Handler) Handle(cx *layer4.Connection, next layer4.Handler) error {
 	return next.Handle(cx.Wrap(wrapped))
 }
 
+// halfCloseConn reads through a PROXY protocol connection and passes a half-close on to
+// the connection underneath (the PROXY protocol connection itself offers no CloseWrite),
+// so that a later handler (such as the proxy) can relay an end of stream to the client.
+type halfCloseConn struct {
+	net.Conn
+	under *layer4.Connection
+}
+
+func (c halfCloseConn) CloseWrite() error { return c.under.CloseWrite() }
+
 // realAddrConn reads through a PROXY protocol connection whose header carried no
 // addresses and reports the addresses of the underlying connection.
 type realAddrConn struct {
-	net.Conn
+	halfCloseConn
 	remote, local net.Addr
 }
 
